@@ -8,6 +8,9 @@ From GF Require Import Base.Res Base.Bytes Model.Msg Model.Json Model.Cfg Model.
 Import ListNotations.
 Open Scope N_scope.
 
+Lemma some_inj_local {A} (a b : A) : Some a = Some b -> a = b.
+Proof. congruence. Qed.
+
 (* values the general formatter writes: numbers are decimal numerals, strings are ANY bytes *)
 Fixpoint jval_oku (v : jval) : Prop :=
   match v with
@@ -33,18 +36,23 @@ Proof.
     apply jv_array. apply elements_ok; [discriminate|exact A].
 Qed.
 
+(* a member: the name written as a string, a colon, the value *)
+Lemma show_member_u_shape k v :
+  show_member_u (k, v) = 34 :: esc_utf8 (length k) k ++ [34; 58] ++ show_jval_u v.
+Proof. unfold show_member_u, esc_string_utf8. cbn [fst snd app]. rewrite <- app_assoc. reflexivity. Qed.
+
 Lemma members_oku ms : ms <> [] ->
-  Forall (fun kv => json_chars (fst kv) /\ jval_oku (snd kv)) ms ->
+  Forall (fun kv => jval_oku (snd kv)) ms ->
   json_members (intersperse [44] (map show_member_u ms)).
 Proof.
-  induction ms as [|[k v] r IH]; intros Hne Hall; [congruence|]. inversion Hall as [|? ? [Hk Hv] Hr]; subst.
+  induction ms as [|[k v] r IH]; intros Hne Hall; [congruence|]. inversion Hall as [|? ? Hv Hr]; subst.
   cbn [fst snd] in *.
   destruct r as [|y r']; cbn [map intersperse].
-  - unfold show_member_u. cbn [fst snd]. apply jm_one; [exact Hk|apply show_jval_u_value; exact Hv].
+  - rewrite show_member_u_shape. apply jm_one; [apply esc_utf8_chars; apply le_n|apply show_jval_u_value; exact Hv].
   - change (show_member_u (k, v) ++ [44] ++ intersperse [44] (map show_member_u (y :: r')))
       with (show_member_u (k, v) ++ 44 :: intersperse [44] (map show_member_u (y :: r'))).
-    unfold show_member_u at 1. cbn [fst snd].
-    apply jm_more; [exact Hk|apply show_jval_u_value; exact Hv|]. apply IH; [discriminate|exact Hr].
+    rewrite show_member_u_shape.
+    apply jm_more; [apply esc_utf8_chars; apply le_n|apply show_jval_u_value; exact Hv|]. apply IH; [discriminate|exact Hr].
 Qed.
 
 (* ---- what a renderer returns becomes a well-formed value ---- *)
@@ -118,23 +126,15 @@ Proof.
     + split; assumption.
 Qed.
 
-(* ---- the JSON form is well formed ---- *)
-Definition names_plain (c : fmtc) : Prop :=
-  forall s, In s (cFields c) -> plain_key (bytes_of_string (final_name c s)) = true.
-
+(* ---- the JSON form is well formed, for ANY configuration: names are written as JSON strings too ---- *)
 Theorem format_json_valid c m out :
-  names_plain c -> format_json c m = Some out -> json_value out.
+  format_json c m = Some out -> json_value out.
 Proof.
-  intros Hn H. unfold format_json in H.
-  destruct (format_members c m (cFields c)) as [ms|] eqn:Em; [|discriminate]. inversion H; subst; clear H.
-  destruct (format_members_spec _ _ _ _ Em) as (Hk & Hv).
+  intros H. unfold format_json in H.
+  destruct (format_members c m (cFields c)) as [ms|] eqn:Em; [|discriminate]. apply some_inj_local in H. subst out.
+  destruct (format_members_spec _ _ _ _ Em) as (_ & Hv).
   destruct ms as [|kv r]; [apply jv_object_empty|].
-  apply jv_object. apply members_oku; [discriminate|].
-  assert (Hkeys : Forall (fun k => json_chars k) (map fst (kv :: r))).
-  { rewrite Hk. apply Forall_forall. intros k Hin. apply in_map_iff in Hin. destruct Hin as (s & <- & Hs).
-    apply filter_In in Hs. apply plain_key_chars. apply Hn. apply Hs. }
-  clear Hk Em. revert Hkeys Hv. generalize (kv :: r). intros l. induction l as [|x l IH]; intros Hkeys Hv; [constructor|].
-  inversion Hkeys; inversion Hv; subst. constructor; [split; assumption|apply IH; assumption].
+  apply jv_object. apply members_oku; [discriminate|exact Hv].
 Qed.
 
 (* ---- keys: the configured fields that are written, renamed, in configured order ---- *)
@@ -295,15 +295,26 @@ Proof.
                end) l).
 Qed.
 
+(* the documented names need no escaping (finite table, evaluated) *)
+Lemma default_keys_unescaped :
+  forallb (fun r : string * string * N * ckind => let '(j, _, _, _) := r in
+             if list_eq_dec N.eq_dec (esc_string_utf8 (bytes_of_string j)) (34 :: bytes_of_string j ++ [34]) then true else false)
+          name_table = true.
+Proof. vm_compute. reflexivity. Qed.
+
 (* under the default configuration the general formatter IS the default formatter of Model/Render.v *)
 Theorem format_default_json m : format_json c0 m = Some (json_default m).
 Proof.
   unfold format_json. change (cFields c0) with (map (fun r : string * string * N * ckind => let '(j, _, _, _) := r in j) name_table).
   rewrite (default_members_eq m name_table (incl_refl _)). fold (default_members m).
   unfold json_default, format_object. f_equal. f_equal. f_equal. f_equal.
-  apply map_ext_in. intros [k v] Hin. unfold show_member_u, show_member. cbn [fst snd]. f_equal. f_equal. f_equal.
-  apply show_jval_u_ascii. unfold default_members in Hin. apply in_map_iff in Hin.
-  destruct Hin as ([[[js go] col] kk] & E & _). inversion E; subst. apply render_col_ok.
+  apply map_ext_in. intros [k v] Hin. unfold show_member_u, show_member. cbn [fst snd].
+  unfold default_members in Hin. apply in_map_iff in Hin.
+  destruct Hin as ([[[js go] col] kk] & E & Hr). inversion E; subst.
+  pose proof default_keys_unescaped as K. rewrite forallb_forall in K. specialize (K _ Hr). cbn beta iota in K.
+  destruct (list_eq_dec N.eq_dec (esc_string_utf8 (bytes_of_string js)) (34 :: bytes_of_string js ++ [34])) as [Ek|]; [|discriminate].
+  rewrite Ek. cbn [app]. rewrite <- app_assoc. cbn [app]. f_equal. f_equal. f_equal. f_equal.
+  apply show_jval_u_ascii. apply render_col_ok.
 Qed.
 
 Theorem format_default_text m : format_text c0 m = Some (text_default m).
